@@ -103,36 +103,43 @@ example : (changePassword exCrypt exCodec exDb exFs (some [97]) [97] [120] [] []
 
 /-! ## Effect of a change -/
 
-/-- The two stated assumptions about `crypt`. -/
-structure CryptOk (crypt : Crypt) : Prop where
+/-- The two stated assumptions about `crypt`.  libcrypt answers an unusable setting with a
+    "failure token" (`*0`/`*1`, never equal to its setting) instead of NULL; `failure` recognises
+    those results and both assumptions are about proper hashes only. -/
+structure CryptOk (crypt : Crypt) (failure : Bytes → Bool) : Prop where
   /-- `crypt` verifies its own output: hashing the same password with the produced hash as
       setting reproduces the hash -/
-  verifies : ∀ p s h, crypt p s = some h → crypt p h = some h
+  verifies : ∀ p s h, crypt p s = some h → failure h = false → crypt p h = some h
   /-- distinct passwords give distinct hashes under the same setting -/
-  distinct : ∀ p q s h, crypt p s = some h → crypt q s = some h → p = q
+  distinct : ∀ p q s h, crypt p s = some h → crypt q s = some h → failure h = false → p = q
 
-example : CryptOk exCrypt :=
-  ⟨by intro p s h hh; simp [exCrypt] at hh ⊢; subst hh; simp,
-   by intro p q s h h1 h2; simp [exCrypt] at h1 h2; rw [← h2] at h1; exact (List.cons.inj h1).2⟩
+example : CryptOk exCrypt (fun _ => false) :=
+  ⟨by intro p s h hh _; simp [exCrypt] at hh ⊢; subst hh; simp,
+   by intro p q s h h1 h2 _; simp [exCrypt] at h1 h2; rw [← h2] at h1; exact (List.cons.inj h1).2⟩
 
 /-- Whenever the request stored a new hash (success response, or the late "could not write
     password file" error — the in-memory database is already changed then): the new password
     authenticates as the target (the result is the target's `auth` object) and NO other password
-    does — in particular not the old one. -/
-theorem new_authenticates_old_does_not (crypt : Crypt) (hc : CryptOk crypt) (c : Codec) (db : Db) (fs : Fs)
+    does — in particular not the old one.  (Hypothesis `hnf`: libcrypt supports the method the
+    setting was derived for, i.e. the hash that was stored is not a failure token.) -/
+theorem new_authenticates_old_does_not (crypt : Crypt) (failure : Bytes → Bool) (hc : CryptOk crypt failure)
+    (c : Codec) (db : Db) (fs : Fs)
     (caller : Option Bytes) (target newpw rnd : Bytes) (outs : List Outcome) :
     let r := changePassword crypt c db fs caller target newpw rnd outs
     (r.err = none ∨ r.err = some .writeFailed) →
+    (∀ setting e, r.hashed = some (setting, some e) → failure e = false) →
     ∃ u, lookup db target = some u ∧
       credentialsOk crypt r.db target newpw = u.auth ∧
       ∀ q, q ≠ newpw → credentialsOk crypt r.db target q = none := by
-  intro r hr
+  intro r hr hnf
   have hr' : (changePassword crypt c db fs caller target newpw rnd outs).err = none ∨
       (changePassword crypt c db fs caller target newpw rnd outs).err = some .writeFailed := hr
+  have hnf' : ∀ setting e, (changePassword crypt c db fs caller target newpw rnd outs).hashed = some (setting, some e) →
+      failure e = false := hnf
   show ∃ u, lookup db target = some u ∧
       credentialsOk crypt (changePassword crypt c db fs caller target newpw rnd outs).db target newpw = u.auth ∧
       ∀ q, q ≠ newpw → credentialsOk crypt (changePassword crypt c db fs caller target newpw rnd outs).db target q = none
-  unfold changePassword at hr' ⊢
+  unfold changePassword at hr' hnf' ⊢
   cases hp : precheck db caller target with
   | error e =>
     exfalso
@@ -162,27 +169,30 @@ theorem new_authenticates_old_does_not (crypt : Crypt) (hc : CryptOk crypt) (c :
     · rcases hk with k | k | k | k | k <;> (subst k; cases h)
   | ok v =>
     obtain ⟨u, stored⟩ := v
-    rw [hp] at hr'
-    simp only at hr' ⊢
+    rw [hp] at hr' hnf'
+    simp only at hr' hnf' ⊢
     obtain ⟨_, hl, _⟩ := precheck_ok hp
     cases hs : deriveSetting stored rnd with
     | none =>
       rw [hs] at hr'
       simp at hr'
     | some setting =>
-      rw [hs] at hr'
-      simp only at hr' ⊢
+      rw [hs] at hr' hnf'
+      simp only at hr' hnf' ⊢
       cases hcr : crypt newpw setting with
       | none =>
         rw [hcr] at hr'
         simp at hr'
       | some e =>
+        rw [hcr] at hnf'
+        simp only at hnf'
+        have hne : failure e = false := hnf' setting e rfl
         simp only
         refine ⟨u, hl, ?_, ?_⟩
         · unfold credentialsOk
           rw [lookup_replacePassword_self db target e u hl]
           simp only
-          rw [hc.verifies newpw setting e hcr]
+          rw [hc.verifies newpw setting e hcr hne]
           simp
         · intro q hq
           unfold credentialsOk
@@ -194,10 +204,12 @@ theorem new_authenticates_old_does_not (crypt : Crypt) (hc : CryptOk crypt) (c :
             simp only
             by_cases he : e' = e
             · subst he
-              exact absurd (hc.distinct q newpw e' e' hq2 (hc.verifies newpw setting e' hcr)) hq
+              exact absurd (hc.distinct q newpw e' e' hq2 (hc.verifies newpw setting e' hcr hne) hne) hq
             · simp [he]
 
-example : (changePassword exCrypt exCodec exDb exFs (some [97]) [97] [120] [] []).err = none := by decide
+example : (changePassword exCrypt exCodec exDb exFs (some [97]) [97] [120] [] []).err = none ∧
+    ∀ setting e, (changePassword exCrypt exCodec exDb exFs (some [97]) [97] [120] [] []).hashed = some (setting, some e) →
+      (fun _ => false) e = false := ⟨by decide, fun _ _ _ => rfl⟩
 example : credentialsOk exCrypt (changePassword exCrypt exCodec exDb exFs (some [97]) [97] [120] [] []).db [97] [120]
     = some [123, 125] := by decide
 
